@@ -98,6 +98,12 @@ fn main_step(k: usize, eg: &mut EGraph<T>, hs: &mut Vec<AppliedId>) {
             let w = add(eg, F_TEXT);
             println!("step5 {w:?} fresh={}", Slot::fresh());
             let a = add(eg, "(h (v $xname) gamma)");
+            // an e-node that binds TWO different slots (Bind<Bind<_>>): which binder gets which fresh name is visible in
+            // extracted terms and in dump()
+            let d2 = add(eg, "(sum (v $xname) $p $q (h (f $p $q) (v $q)))");
+            let d3 = add(eg, "(lam $o (sum (v $o) $p $q (h (f $q $p) (f $p $o))))");
+            let ex5 = Extractor::<T, AstSize>::new(eg, AstSize);
+            println!("step5 {d2:?} {d3:?} extract {} | {}", ex5.extract(&d2, eg), ex5.extract(&d3, eg));
             println!("step5 {a:?} progress={:?}", { let p = eg.progress(); (p.number_of_classes, p.number_of_live_classes, p.sum_of_slots, p.sum_of_symmetries) });
             eg.dump();
         }
